@@ -155,7 +155,7 @@ Proof.
   - destruct IH as (I1 & I2 & I3). split; [apply replace_wf; assumption|]. cbn. auto.
   - destruct IH as (I1 & I2 & I3). apply (destroy_block_wf ss Hss patch) in H; [|exact I1].
     destruct H as (D1 & D2 & D3). repeat split; congruence.
-  - destruct IH as (I1 & I2 & I3). destruct (cse_wf ss patch i i' Hss I1 H) as (C1 & _).
+  - destruct IH as (I1 & I2 & I3). destruct (cse_wf ss Hss patch i i' I1 H) as (C1 & _).
     split; [exact C1|]. split; [|apply Hcats; exact C1].
     unfold cse in H. destruct (cse_genome gene_cmp (i_gen i)) as [g'|] eqn:E; [|discriminate].
     inversion H as [Hi']. cbn [with_gen i_gen]. rewrite <- I2. clear - E. unfold cse_genome in E.
